@@ -565,6 +565,22 @@ func (o *oracle) check(op *Op, ob *Obs, s *core.VerifSnapshot, api []string) (st
 			if l.IndexLen != len(l.Hashes) {
 				return "nonce-index-out-of-step", fmt.Sprintf("account %d %s: heap has %d nonces, map has %d", i, name, l.IndexLen, len(l.Hashes))
 			}
+			// the nonce index is a min-heap (container/heap array layout) over exactly the keys of the item map:
+			// Forward and Ready only ever look at its root
+			inItems := map[uint64]bool{}
+			for _, n := range l.Nonces {
+				inItems[n] = true
+			}
+			seenIdx := map[uint64]bool{}
+			for j, n := range l.Index {
+				if !inItems[n] || seenIdx[n] {
+					return "nonce-heap-corrupt", fmt.Sprintf("account %d %s: index %v is not the key set of the items %v", i, name, l.Index, l.Nonces)
+				}
+				seenIdx[n] = true
+				if j > 0 && l.Index[(j-1)/2] > n {
+					return "nonce-heap-corrupt", fmt.Sprintf("account %d %s: index %v violates the heap order at position %d (items %v)", i, name, l.Index, j, l.Nonces)
+				}
+			}
 			if l.HasCache {
 				if len(l.Cache) != len(l.Hashes) {
 					return "flatten-cache-stale", fmt.Sprintf("account %d %s cache %d items vs %d", i, name, len(l.Cache), len(l.Hashes))
@@ -648,6 +664,54 @@ func (o *oracle) check(op *Op, ob *Obs, s *core.VerifSnapshot, api []string) (st
 			return "pool-nonce-out-of-step", fmt.Sprintf("account %d has no pending tx: pool nonce %d, account nonce %d", i, a.PoolNonce, a.StateNonce)
 		} else if a.PoolNonce < a.StateNonce {
 			o.lowNonce++
+		}
+	}
+	// a queued transaction sitting exactly at the account nonce of an account without pending transactions
+	// is promoted by the reorg run that looks at the account (every account after a reset, the submitters
+	// after a submission) - unless the pool's own next nonce was pulled below the account nonce
+	if op.K == "reorg" || op.K == "add" {
+		look := map[int]bool{}
+		switch {
+		case op.K == "add":
+			// only a submission that did not replace anything marks its account dirty
+			for j, id := range op.Txs {
+				t := e.c.Txs[id]
+				if ob.OutKind != 1 || ob.Errs[j] != 0 || !t.Sig || o.prev == nil {
+					continue
+				}
+				fresh := true
+				for _, l := range []*core.VerifListView{o.prev.Accounts[t.From].Pending, o.prev.Accounts[t.From].Queue} {
+					if l != nil {
+						for _, n := range l.Nonces {
+							fresh = fresh && n != t.Nonce
+						}
+					}
+				}
+				for j2, id2 := range op.Txs {
+					if j2 != j && e.c.Txs[id2].From == t.From && e.c.Txs[id2].Nonce == t.Nonce {
+						fresh = false
+					}
+				}
+				if fresh {
+					look[t.From] = true
+				}
+			}
+		case op.Reset:
+			for i := range s.Accounts {
+				look[i] = true
+			}
+		case op.HaveDirty:
+			for _, i := range op.Dirty {
+				look[i] = true
+			}
+		}
+		for i, a := range s.Accounts {
+			if o.gapKnown[i] || !look[i] {
+				continue
+			}
+			if a.Pending == nil && a.Queue != nil && a.Queue.Nonces[0] == a.StateNonce && a.PoolNonce >= a.StateNonce {
+				return "executable-tx-left-queued", fmt.Sprintf("account %d: nonce %d is queued, the account nonce is %d and nothing is pending", i, a.Queue.Nonces[0], a.StateNonce)
+			}
 		}
 	}
 	if len(s.All) != pTotal+qTotal {
@@ -1077,6 +1141,86 @@ func (g *gen) newBlock() (int, bool) {
 	return b.ID, !r.Chance(4) // registered with the chain?
 }
 
+// heapScenario: an account queues 3-5 gapped transactions submitted in shuffled
+// nonce order with differing costs; a head then lowers the balance so that
+// exactly one of them (lowest, middle or highest nonce) is dropped by
+// promoteExecutables; a later head raises the account nonce into the queued
+// range; finally the missing nonce may be supplied.  txSortedMap.Forward and
+// Ready only look at the root of the nonce heap, so this is where a heap whose
+// array order is wrong shows.
+func (g *gen) heapScenario() []Op {
+	r, c := g.r, g.c
+	a := r.Intn(c.NAccts)
+	va := g.last.Accounts[a]
+	if va.Pending != nil || va.Queue != nil || va.Local {
+		return nil
+	}
+	blk := func(parent int, mod func(st []Acct)) int {
+		pb := c.Blocks[parent]
+		b := Block{ID: len(c.Blocks), Parent: parent, Num: pb.Num + 1, GasLimit: 100000, StateOK: true}
+		st := append([]Acct{}, pb.State...)
+		if !pb.StateOK {
+			st = append([]Acct{}, c.Blocks[c.Genesis].State...)
+		}
+		mod(st)
+		b.State = st
+		c.Blocks = append(c.Blocks, b)
+		g.e.ensureBlocks()
+		return b.ID
+	}
+	var ops []Op
+	head := g.head
+	step := func(nb int) {
+		ops = append(ops, Op{K: "block", Block: nb, Old: -1}, Op{K: "reorg", Reset: true, Old: head, New: nb, ViaLoop: r.Bool()})
+		head = nb
+	}
+	var s uint64
+	step(blk(head, func(st []Acct) { st[a].Balance = 1000000000; s = st[a].Nonce }))
+	k := 3 + r.Intn(3)
+	offs := []uint64{}
+	for len(offs) < k {
+		o := uint64(1 + r.Intn(8))
+		dup := false
+		for _, x := range offs {
+			dup = dup || x == o
+		}
+		if !dup {
+			offs = append(offs, o)
+		}
+	}
+	sorted := append([]uint64{}, offs...)
+	sort.Slice(sorted, func(i, j int) bool { return sorted[i] < sorted[j] })
+	victim := sorted[[]int{0, k / 2, k - 1}[r.Intn(3)]]
+	if r.Chance(60) {
+		victim = sorted[0]
+	}
+	price := g.price(a, 2)
+	if g.last.GasPrice.Uint64() > price {
+		price = g.price(a, 1+g.last.GasPrice.Uint64()/8)
+	}
+	for i, o := range offs { // submission order = shuffled nonce order
+		value := uint64(100000 * (i + 1))
+		if o == victim {
+			value = 50000000
+		}
+		ops = append(ops, Op{K: "add", Old: -1, Txs: []int{g.mkTx(a, true, s+o, price, 21000, value, 0)}})
+	}
+	step(blk(head, func(st []Acct) { st[a].Balance = 20000000 })) // only the victim becomes unaffordable
+	rest := []uint64{}
+	for _, o := range sorted {
+		if o != victim {
+			rest = append(rest, o)
+		}
+	}
+	target := s + rest[r.Intn(len(rest))] + uint64(r.Intn(2)) // onto a queued nonce, or just above it
+	step(blk(head, func(st []Acct) { st[a].Nonce = target }))
+	if r.Chance(60) {
+		ops = append(ops, Op{K: "add", Old: -1, Txs: []int{g.mkTx(a, true, target, price, 21000, 7, 0)}})
+	}
+	g.head = head
+	return ops
+}
+
 func subset(r *vf.Rng, n int, p int) []int {
 	out := []int{}
 	for i := 0; i < n; i++ {
@@ -1186,6 +1330,9 @@ func randCfg(r *vf.Rng, n int) Cfg {
 		c.AccountQueue = uint64(1 + r.Intn(4))
 		c.GlobalQueue = uint64(1 + r.Intn(7))
 	}
+	if r.Chance(18) { // room for the nonce-heap scenario
+		c.AccountQueue, c.GlobalQueue = uint64(6+r.Intn(3)), uint64(12+r.Intn(8))
+	}
 	c.NoLocals = r.Chance(10)
 	c.Locals = []int{}
 	if r.Chance(20) {
@@ -1239,8 +1386,19 @@ func generate(r *vf.Rng) (*Case, runResult) {
 	var res runResult
 	res.where = -1
 	steps := 6 + r.Heavy(140)
+	scenarioAt := -1
+	if c.Cfg.AccountQueue >= 6 {
+		scenarioAt = r.Intn(steps)
+	}
 	for len(c.Ops) < steps {
-		for _, op := range g.nextOps() {
+		next := g.nextOps()
+		if scenarioAt >= 0 && len(c.Ops) >= scenarioAt {
+			scenarioAt = -1
+			if sc := g.heapScenario(); sc != nil {
+				next = sc
+			}
+		}
+		for _, op := range next {
 			op := op
 			c.Ops = append(c.Ops, op)
 			ob, s, api := e.exec(&c.Ops[len(c.Ops)-1])
